@@ -285,11 +285,17 @@ KNOWN = {"fieldless_ctor_route": _known_fieldless_ctor_route}
 
 
 # ------------------------------------------------------------------ generators
+def name_expressible(n):
+    """what a format string can say about a field name (measured on HEAD): no , : ; / in it, no '<-', no blank at
+    either end, no '!' at the end; an inner '!', parentheses, '-', a lone '<' are fine"""
+    return not (set(n) & set(",:;/")) and "<-" not in n and n == n.strip() and not n.endswith("!")
+
+
 def _safe_desc(rng, big=False):
     """C12's tables with field names the serialised form can express"""
     while True:
         d = c12.gen_desc(rng, big)
-        if all(not (set(f["name"]) & set(",:;!/<()")) and f["name"] == f["name"].strip() for f in d["fields"]):
+        if all(name_expressible(f["name"]) for f in d["fields"]):
             return d
 
 
@@ -331,9 +337,8 @@ def gen_history(rng, desc):
         elif k < 0.78:
             # columns removed from the live format object, between two reads of the format
             gone = [n for n in names + ["no such column"] if rng.random() < 0.4][:max(1, len(names) - 1)]
-            # (on a table whose widths are not negotiated yet: `set ""` makes it so. Removing a break-by column from
-            # a PRINTED table with limits leaves widths negotiated for other visible rows - see the report)
-            ops += ["set " + enc_str("")] + rng.choice([["str"], ["str", "str"], []]) + \
+            # (in any state: fresh, printed, re-formatted)
+            ops += rng.choice([["str"], ["print", "str"], ["print"], ["set " + enc_str(""), "str"], []]) + \
                    ["rmcols " + " ".join(enc_str(g) for g in gone), "str"]
         elif k < 0.80:
             ops.append("set " + enc_str(rng.choice(["", ";", ";;"])))
@@ -428,6 +433,13 @@ def corpus():
     desc = dict(desc, records=[[i, "x" * (8 if i == 3 else 1)] for i in range(6)])
     yield _case(desc, ["print", "setlim 1 1", "str", "setlast", "print", "str"], "corpus-set_limits-stale-widths")
     yield _case(desc, ["print", "setlim 1 1", "str", "ctorlast", "print", "str"], "corpus-set_limits-stale-widths")
+    # the defect fixed by adb5d03: remove_columns kept the widths fitted to the rows visible with the break-by column
+    desc = {"valid": True, "fields": [{"name": "g", "enum": None, "title": None}, {"name": "a", "enum": None, "title": None}],
+            "records": [["g1", "x"], ["g1", "xbx"], ["g2", "b"], ["g2", "c"]],
+            "cols": [{"f": "g", "mod": None, "brk": True, "w": None}, {"f": "a", "mod": None, "brk": False, "w": None}],
+            "fmt_limits": [0, 3], "limits": None, "header": None, "footer": None, "skip": None, "fmt": "g!,a;0:3"}
+    yield _case(desc, ["print", "rmcols " + enc_str("g"), "str", "setlast", "print", "str"], "corpus-remove_columns-stale-widths")
+    yield _case(desc, ["print", "rmcols " + enc_str("g"), "str", "ctorlast", "print", "str"], "corpus-remove_columns-stale-widths")
 
 
 def gen_cases(rng, tier):
@@ -536,16 +548,16 @@ RULE = ("histories over C12's tables (field names the serialised form can expres
         "with data; distinct by protocol text")
 TRUSTED = list(c12.TRUSTED)
 ASSUMPTIONS = list(c12.ASSUMPTIONS) + [
-    "field names contain none of , : ; ! / < ( ) and no surrounding blanks (out of the property's domain)",
+    "field names contain none of , : ; / and no '<-', have no surrounding blanks and do not end in '!' (what HEAD "
+    "cannot express in a format string; inner '!', parentheses, '-' and a lone '<' are in the domain; the theorems "
+    "exclude '<' altogether)",
     "a print that raises ends the history (the half-updated format object is not modelled)",
-    "remove_columns is issued on tables whose widths are not negotiated (after `set ''`); the theorems "
-    "(Reach.removeFresh) cover exactly that case; set_limits is issued and covered (Reach.setLimits) in any state"]
+    "set_limits and remove_columns are issued, judged and covered (Reach.setLimits, Reach.removeCols) in any state"]
 LEVEL_TEXT = ("Kernel-checked on the model, for tables built with explicit expressible field names (modifiers of "
               "user-written field types: free text without , : ; ! < and no trailing blank, '/' allowed) and all "
               "histories in Reach: construction from a string / from column objects / from another reachable table's "
               "format object (siblings), printing, table.fmt = <any string>, re-construction from any string, and - on "
-              "table.fmt.set_limits(...) in any state and - on tables whose widths are not negotiated - "
-              "table.remove_columns(...). "
+              "table.fmt.set_limits(...) and table.remove_columns(...) in any state. "
               "parse_print: the printed string is accepted and reads back as the same columns (name, modifier, break-by, "
               "bounds; the '(width)' suffix ignored) and as the same limits when they are in the string - they are left "
               "out when the last printing skipped nothing. same_rendering_setter: same lines, same fields and columns, "
@@ -559,9 +571,7 @@ LEVEL_TEXT = ("Kernel-checked on the model, for tables built with explicit expre
               "Model = code rests on the differential run of histories.")
 LEVEL_NOTE = ("Trusted: Lean kernel, translator (constants shared with C12), adapter/wire in harness/c12.py and c13.py, "
               "sampled correspondence. Tie and oracle only (outside Reach): the fmt_obj route inside histories "
-              "(ctorobj). Tie only, not judged by the oracle and ruled outside the quantifier 'fresh, printed, "
-              "re-formatted': remove_columns on a printed table and records.append after a print - the widths stay as "
-              "negotiated for the rows visible before, feeding the string back re-negotiates them (reported); the "
-              "driver applies rmcols in any state, the generator issues it on un-negotiated tables only. Not "
-              "covered: negative limits on the constructor route (not faithful, reported), enhanced formats.")
+              "(ctorobj). Tie only, not judged by the oracle: records.append after a print (a change of the data, not of "
+              "the format: the widths stay as fitted to the rows visible before). Not covered: negative limits on the "
+              "constructor route (not faithful, reported), enhanced formats.")
 TECHNIQUE = "Lean 4 theorems (string round trip on List Char, reachability invariants) + differential run of histories"
